@@ -9,8 +9,24 @@ use smartcore::linalg::BaseMatrix;
 
 pub const GROUPS: [&str; 3] = ["struct", "elem", "reduce"];
 
-pub fn run<T: W>(group: &str, r: usize, c: usize, fs: FillSet, seed: u64) {
-    let fi = mc::choose(n_fills(r, c, fs));
+/// Fill indices of shard `k` of `kk`: the 20 base fills belong to shard 0, the Sigma3 fills are
+/// dealt round-robin.
+fn shard_fill(nf: usize, k: usize, kk: usize) -> usize {
+    if kk <= 1 || nf <= 20 {
+        return mc::choose(nf);
+    }
+    let base = if k == 0 { 20 } else { 0 };
+    let sig = (nf - 20 + kk - 1 - k) / kk;
+    let i = mc::choose(base + sig);
+    if i < base {
+        i
+    } else {
+        20 + k + kk * (i - base)
+    }
+}
+
+pub fn run<T: W>(group: &str, r: usize, c: usize, fs: FillSet, shard: (usize, usize), seed: u64) {
+    let fi = shard_fill(n_fills(r, c, fs), shard.0, shard.1);
     let a = fill(fi, r, c, fs, seed).round::<T>();
     let d: DenseMatrix<T> = build(&a);
     let op = match group {
@@ -412,7 +428,7 @@ fn reduce<T: W>(a: &M, d: &DenseMatrix<T>, fi: usize, fs: FillSet) -> String {
                             continue;
                         }
                         for k in 0..g.len() {
-                            let cls = offset_class(want[0][k], want[2][k]);
+                            let cls = offset_class::<T>(want[0][k], want[2][k]);
                             if cls == "large-offset" {
                                 mc::count("var_lane_large_offset");
                             }
